@@ -27,7 +27,7 @@ func installMonitors(w *World) {
 	s.Armed = armed
 	t := newTracker(w)
 	w.Track = t
-	m := &fullMon{w: w, t: t, enqueued: map[string]bool{}, startWrites: map[string]int{}}
+	m := &fullMon{w: w, t: t, enqueued: map[string]bool{}, startWrites: map[string]int{}, pendingVerify: map[string]string{}}
 	w.Mon = m
 	w.API.PreHook(m.preWrite)
 	w.API.Listen(m.onEvent)
@@ -43,6 +43,7 @@ type fullMon struct {
 	t           *tracker
 	enqueued    map[string]bool
 	startWrites map[string]int
+	pendingVerify map[string]string
 }
 
 func (m *fullMon) v(id, format string, args ...interface{}) { m.w.Sim.Violate(id, format, args...) }
@@ -749,6 +750,29 @@ func (m *fullMon) onEvent(ev *APIEvent) {
 
 func (m *fullMon) onCall(c *APICall) {
 	now := m.w.Sim.Now()
+	if c.Ctrl == "jobqueue" {
+		// causal markers for the two known residual double-fault cases of the start path
+		if c.Verb == "updateStatus" && c.Res == ResJobs {
+			delete(m.pendingVerify, c.Task)
+			if pre, ok := c.PreObj.(*execution.Job); ok && pre != nil {
+				switch c.Fault {
+				case "lostack":
+					if !isStarted(pre) {
+						m.pendingVerify[c.Task] = c.Name
+					}
+				case "drop", "unavailable", "throttle":
+					if isStarted(pre) {
+						m.w.Sim.Note("start write for already-started Job failed with an ambiguous error (stale cache): counter kept twice")
+					}
+				}
+			}
+		} else if c.Verb == "get" && c.Res == ResJobs {
+			if name, ok := m.pendingVerify[c.Task]; ok && name == c.Name && (c.Fault != "" || c.Err != nil) {
+				m.w.Sim.Note("start write lost its ack and the verifying read failed as well: counter rolled back for a started Job")
+			}
+			delete(m.pendingVerify, c.Task)
+		}
+	}
 	switch {
 	case c.Ctrl == "job" || c.Ctrl == "anon":
 		if c.Verb == "delete" && c.Res == ResPods && c.Fault != "drop" && c.Fault != "unavailable" && c.Fault != "throttle" {
